@@ -190,17 +190,27 @@ class LTSSMController(Elaboratable):
             Automatically handles any "on entry" conditions for the given state.
             """
 
-            # Clear our "time-in-state" counter, and some of our mode flags.
-            m.d.ss += [
-                cycles_in_state         .eq(0),
-                self.request_hot_reset  .eq(0)
-            ]
+            # A warm reset takes priority over every other transition: while we're in USB reset,
+            # the only place we can go is back to Rx.Detect.Reset (see handle_warm_resets()),
+            # no matter in which order a state lists its transitions.
+            if state != "Rx.Detect.Reset":
+                condition = ~self.in_usb_reset
+            else:
+                condition = Const(1)
 
-            # If we have any additional entry conditions for the given state, apply them.
-            if state in tasks_on_entry:
-                m.d.ss += tasks_on_entry[state]
+            with m.If(condition):
 
-            m.next = state
+                # Clear our "time-in-state" counter, and some of our mode flags.
+                m.d.ss += [
+                    cycles_in_state         .eq(0),
+                    self.request_hot_reset  .eq(0)
+                ]
+
+                # If we have any additional entry conditions for the given state, apply them.
+                if state in tasks_on_entry:
+                    m.d.ss += tasks_on_entry[state]
+
+                m.next = state
 
 
         def transition_on_timeout(timeout, *, to):
@@ -311,6 +321,8 @@ class LTSSMController(Elaboratable):
             # detect whether we're connected to another SuperSpeed transciever via a cable, so
             # we don't waste time performing link training if our link isn't there.
             with m.State("Rx.Detect.Active"):
+                handle_warm_resets()
+
                 m.d.comb += [
                     self.tx_electrical_idle    .eq(1),
                     self.perform_rx_detection  .eq(1)
@@ -326,6 +338,8 @@ class LTSSMController(Elaboratable):
             # We'll wait here until our next detection cycle, saving the power of performing
             # continuous detections.
             with m.State("Rx.Detect.Quiet"):
+                handle_warm_resets()
+
                 m.d.comb += self.tx_electrical_idle.eq(1)
 
                 # TODO: count our number of failed attempts; and disable
@@ -339,6 +353,8 @@ class LTSSMController(Elaboratable):
             # begin exchanging LFPS messages; giving the two sides the opportunity to sync up and
             # establish initial DC characteristics. [USB 3.2r1: 7.5.4.3]
             with m.State("Polling.LFPS"):
+                handle_warm_resets()
+
                 m.d.comb += self.tx_electrical_idle.eq(1)
 
 
